@@ -548,7 +548,7 @@ Proof.
     exists p, e. cbn [st_current st_root t_span t_dotted t_implicit]. repeat split; auto.
     destruct tk as [t|].
     + destruct Wt as (T1 & T2 & T3). rewrite tnestH_unfold in T1. apply andb_true_iff in T1 as [G1 G2].
-      unfold tflags in G1. rewrite T2, T3 in G1. cbn [negb andb orb] in G1. apply andb_true_iff in G1 as [_ G1].
+      unfold tflags in G1. rewrite T2, T3 in G1. cbn [negb andb orb] in G1.
       rewrite tnestH_unfold. cbn [t_items t_span t_dotted t_implicit]. unfold tflags. cbn [t_dotted t_implicit negb andb orb].
       apply forallb_forall. intros kv Hin. unfold no_values in G1.
       pose proof (proj1 (forallb_forall _ _) G1 kv Hin) as Nv. pose proof (proj1 (forallb_forall _ _) G2 kv Hin) as Hkv.
